@@ -76,9 +76,13 @@ def run_scenario(sc):
     import FlowCal.plot
     rnd = np.random.RandomState(sc['seed'] + 1)
     K, nch = sc['K'], sc['nch']
-    a0, r = 4.0, 1024
+    r = 1024
+    # decades of the log amplifier per channel: in every other scenario the channels (and so their ranges in RFI,
+    # 10^4 / 10^5 / 10^4.5) differ inside one calibration and from one calibration of this process to the next
+    decades = [4.0, 5.0, 4.5] if sc['seed'] % 2 else [4.0, 4.0, 4.0]
     cols = []
     for c, ch in enumerate(sc['chans']):
+        a0 = decades[c]
         col = []
         for p in range(K):
             # true total MEF-equivalent brightness from the rounded manufacturer value, back to RFI
@@ -100,7 +104,8 @@ def run_scenario(sc):
     names = ['FL%d' % (c + 1) for c in range(nch)] + ['FSC']
     d = os.environ.get('C02_DIR')
     path = os.path.join(d, 'beads_%d.fcs' % sc['seed'])
-    fcsgen.write_sample(path, data.tolist(), names, [1024] * (nch + 1), bits=16, pne=['4,1'] * nch + ['0,0'])
+    fcsgen.write_sample(path, data.tolist(), names, [1024] * (nch + 1), bits=16,
+                        pne=['%s,1' % ('%g' % decades[c]) for c in range(nch)] + ['0,0'])
     mef_values = [[(np.nan if ch['unknown'][p] else ch['mef'][p]) for p in range(K)] for ch in sc['chans']]
     mef_channels = names[:nch]
     if sc['cluster'] == 'first':
